@@ -283,7 +283,34 @@ func Mul(a, b *Term) *Term {
 			return Mul(a.Args[0], MkInt(new(big.Int).Neg(b.IV)))
 		}
 	}
+	// distribute over an ite with constant leaves: keeps products linear for the solvers
+	if x, y, ok := iteConstLeaves(a, b); ok {
+		return Ite(x.Args[0], Mul(x.Args[1], y), Mul(x.Args[2], y))
+	}
 	return mk("*", SInt, a, b)
+}
+
+func constLeaves(t *Term, depth int) bool {
+	if t.isI() {
+		return true
+	}
+	if t.Op == "ite" && depth < 8 {
+		return constLeaves(t.Args[1], depth+1) && constLeaves(t.Args[2], depth+1)
+	}
+	if t.Op == "*" && t.Args[1].isI() {
+		return constLeaves(t.Args[0], depth+1)
+	}
+	return false
+}
+
+func iteConstLeaves(a, b *Term) (*Term, *Term, bool) {
+	if a.Op == "ite" && constLeaves(a, 0) {
+		return a, b, true
+	}
+	if b.Op == "ite" && constLeaves(b, 0) {
+		return b, a, true
+	}
+	return nil, nil, false
 }
 
 // Div is SMT-LIB Euclidean division (floor for positive divisor).
@@ -1018,6 +1045,13 @@ func InRe(s *Term, smtRe string, goRe func(string) bool) *Term {
 	if s.IsConst() && goRe != nil {
 		return MkBool(goRe(s.SV))
 	}
+	if goRe != nil {
+		termMu.Lock()
+		if _, ok := reMatchers[smtRe]; !ok {
+			reMatchers[smtRe] = goRe
+		}
+		termMu.Unlock()
+	}
 	return intern(&Term{Op: "str.in_re", Sort: SBool, Args: []*Term{s}, SV: smtRe})
 }
 
@@ -1370,6 +1404,101 @@ func orderAxioms(reach map[int]*Term) []*Term {
 				}
 				out = append(out, Implies(And(StrLt(a, b), StrLt(b, c)), StrLt(a, c)))
 			}
+		}
+	}
+	return out
+}
+
+// ---------- cone-of-influence slicing
+
+var (
+	symMu    sync.Mutex
+	symCache = map[int][]int{} // term id -> sorted ids of the variables / UF heads it mentions
+	ufIDs    = map[string]int{}
+)
+
+func ufSymID(name string) int {
+	id, ok := ufIDs[name]
+	if !ok {
+		id = -(len(ufIDs) + 1)
+		ufIDs[name] = id
+	}
+	return id
+}
+
+// Symbols returns the variables (term ids) and UF heads (negative ids) of t.
+func Symbols(t *Term) []int {
+	symMu.Lock()
+	defer symMu.Unlock()
+	return symbolsLocked(t)
+}
+
+func symbolsLocked(t *Term) []int {
+	if s, ok := symCache[t.ID]; ok {
+		return s
+	}
+	set := map[int]bool{}
+	switch t.Op {
+	case "var":
+		set[t.ID] = true
+	case "uf":
+		// the abstract string order and bit-length couple nothing by themselves
+		if t.SV != "strlt" && t.SV != "bitlen" {
+			set[ufSymID(t.SV)] = true
+		}
+	}
+	for _, a := range t.Args {
+		for _, x := range symbolsLocked(a) {
+			set[x] = true
+		}
+	}
+	out := make([]int, 0, len(set))
+	for x := range set {
+		out = append(out, x)
+	}
+	sort.Ints(out)
+	symCache[t.ID] = out
+	return out
+}
+
+// Slice keeps the assertions that share symbols (transitively) with goal.
+func Slice(asserts []*Term, goal *Term) []*Term {
+	want := map[int]bool{}
+	for _, x := range Symbols(goal) {
+		want[x] = true
+	}
+	used := make([]bool, len(asserts))
+	syms := make([][]int, len(asserts))
+	for i, a := range asserts {
+		syms[i] = Symbols(a)
+	}
+	changed := true
+	for changed {
+		changed = false
+		for i := range asserts {
+			if used[i] {
+				continue
+			}
+			hit := false
+			for _, x := range syms[i] {
+				if want[x] {
+					hit = true
+					break
+				}
+			}
+			if hit {
+				used[i] = true
+				changed = true
+				for _, x := range syms[i] {
+					want[x] = true
+				}
+			}
+		}
+	}
+	var out []*Term
+	for i, a := range asserts {
+		if used[i] {
+			out = append(out, a)
 		}
 	}
 	return out
